@@ -81,8 +81,18 @@ impl World for FarmWorld {
         let post = self.snap();
         let boosted = if res.ok { self.ledger_update(&info, &pre, &post, &res) } else { BigUint::zero() };
         self.oracles(tr, &info, &pre, &post, &res, &boosted, legit, &expected_b);
+        let quote = self.last_quote.take();
         if res.ok {
             tr.count(&format!("ok.{}", site));
+            // C20: the reward view quoted just before equals what the same claim / exit pays
+            if let Some((qu, qn, qa, qv)) = quote {
+                if matches!(site.as_str(), "claim" | "exit") && info.caller == qu && info.orig == qu && info.pays.len() == 1 && info.pays[0] == (qn, qa) {
+                    tr.count("branch.quote_then_exec");
+                    if qv != res.rew {
+                        tr.fail("C20", "quote_eq_exec.farm_rewards", &site, &format!("calculateRewardsForGivenPosition {} executed {}", qv, res.rew));
+                    }
+                }
+            }
             // receiver deltas (C05: what is reported as paid really arrives)
             if matches!(site.as_str(), "claim" | "exit" | "enter" | "merge" | "claimBoosted") && info.caller >= 1 && (info.caller as usize) <= self.users.len() {
                 let i = (info.caller - 1) as usize;
@@ -153,8 +163,14 @@ impl World for FarmWorld {
                     tr.fail("C20", "view_pure", w[0], "state changed by a view");
                 }
                 match v {
-                    Some(x) => tr.view_ok(n, &x.to_string()),
-                    None => tr.view_err(n),
+                    Some(x) => {
+                        self.last_quote = Some((user, nonce, amount.clone(), x.clone()));
+                        tr.view_ok(n, &x.to_string())
+                    }
+                    None => {
+                        self.last_quote = None;
+                        tr.view_err(n)
+                    }
                 }
             }
             other => panic!("unknown view {other}"),
